@@ -116,6 +116,11 @@ func (x *VC) callStatic(callee *ssa.Function, args []*Val, binds []*Val, st *Sta
 	if r, ok := x.engineExtern(callee, args, st, reach, pos); ok {
 		return r
 	}
+	if isStringer(callee) && !strings.HasPrefix(fnKey(callee), repoPrefix+"client/pkg/model::(*Timestamp)") {
+		// String()/Error() methods: the text is irrelevant to every property; bodies are not followed
+		x.externs["assumed-pure: String()/Error() methods return an arbitrary string"] = true
+		return []*Val{x.freshOrNamed(sig.Results().At(0).Type(), "str", reach, st)}
+	}
 	if callee.Blocks == nil {
 		x.refuse("call to %s: no body and no contract", callee)
 	}
@@ -172,6 +177,12 @@ func isRecursive(f *ssa.Function) bool {
 // invoke dispatches an interface method call over the closed world of implementers.
 func (x *VC) invoke(recv *Val, ifaceT types.Type, m *types.Func, args []*Val, st *State, reach, pos string, depth int) []*Val {
 	sig := m.Type().(*types.Signature)
+	if returnsOnlyLogger(sig) {
+		// logger getters: contexts always carry a logger (listed assumption)
+		if r, ok := x.autoPure(types.NewPackage("logger", "logger"), m.FullName(), sig, st, reach); ok {
+			return r
+		}
+	}
 	x.addObl("safety:nil-deref", "invoke "+m.Name(), pos, reach, sNot(sEq(recv.T, "0")))
 	x.assume(reach, sNot(sEq(recv.T, "0")))
 	// contract declared on the interface method?
@@ -236,10 +247,6 @@ func (x *VC) invoke(recv *Val, ifaceT types.Type, m *types.Func, args []*Val, st
 		if sel == nil {
 			continue
 		}
-		if viaEmbeddedInterface(sel) {
-			x.externs["assumed: "+shortType(ct)+" is never the dynamic type behind "+shortType(ifaceT)+"."+m.Name()+" (it only delegates to its embedded interface)"] = true
-			continue
-		}
 		fn := x.eng.prog.MethodValue(sel)
 		if fn == nil {
 			continue
@@ -263,7 +270,12 @@ func (x *VC) invoke(recv *Val, ifaceT types.Type, m *types.Func, args []*Val, st
 		brs = append(brs, br{cond, res, bst})
 	}
 	if len(brs) == 0 {
-		x.refuse("invoke %s: no dispatch target", m.Name())
+		// no feasible target on this path (e.g. statically unreachable): any value will do
+		var res []*Val
+		for i := 0; i < sig.Results().Len(); i++ {
+			res = append(res, x.zero(sig.Results().At(i).Type()))
+		}
+		return res
 	}
 	last := brs[len(brs)-1]
 	out := last.st
@@ -317,7 +329,7 @@ func (x *VC) autoPure(pkg *types.Package, full string, sig *types.Signature, st 
 	for i := 0; i < sig.Results().Len(); i++ {
 		r := x.freshOrNamed(sig.Results().At(i).Type(), "log", reach, st)
 		if returnsOnlyLogger(sig) && r.K == KScalar && x.noName == 0 {
-			x.assume("true", sNot(sEq(r.T, "0"))) // loggers are never nil (listed assumption)
+			x.fact(sNot(sEq(r.T, "0"))) // loggers are never nil (listed assumption)
 			x.externs["assumed: logger getters return a non-nil logger"] = true
 		}
 		res = append(res, r)
@@ -335,6 +347,9 @@ func (x *VC) freshOrNamed(t types.Type, hint, reach string, st *State) *Val {
 // engineExtern: dependencies modelled inside the engine.
 func (x *VC) engineExtern(callee *ssa.Function, args []*Val, st *State, reach, pos string) ([]*Val, bool) {
 	if callee.Pkg == nil {
+		if returnsOnlyLogger(callee.Signature) {
+			return x.autoPure(types.NewPackage("logger", "logger"), callee.String(), callee.Signature, st, reach)
+		}
 		return nil, false
 	}
 	if r, ok := x.autoPure(callee.Pkg.Pkg, callee.String(), callee.Signature, st, reach); ok {
@@ -581,7 +596,7 @@ func (fr *Frame) builtin(b *ssa.Builtin, cc *ssa.CallCommon, args []*Val, st *St
 			if mt, ok := a.GT.Underlying().(*types.Map); ok {
 				_, _, c := x.mapComps(mt)
 				l := x.scalar(x.define("maplen", x.idxSort(), sIte(sEq(a.T, "0"), x.ilit(0), sSel(x.get(st, c), a.T))), tInt)
-				x.assume("true", x.cmpS("<=", x.ilit(0), l.T))
+				x.fact(x.cmpS("<=", x.ilit(0), l.T))
 				return l
 			}
 			if _, ok := a.GT.Underlying().(*types.Chan); ok {
@@ -810,4 +825,16 @@ func returnsOnlyLogger(sig *types.Signature) bool {
 		return false
 	}
 	return shortTypeFull(sig.Results().At(0).Type()) == "*"+repoPrefix+"client/pkg/log.OrdaLog"
+}
+
+func isStringer(f *ssa.Function) bool {
+	sig := f.Signature
+	if sig.Recv() == nil || sig.Params().Len() != 0 || sig.Results().Len() != 1 {
+		return false
+	}
+	if b, ok := sig.Results().At(0).Type().Underlying().(*types.Basic); !ok || b.Kind() != types.String {
+		return false
+	}
+	n := f.Name()
+	return n == "String" || n == "Error" || n == "GoString"
 }
